@@ -61,8 +61,10 @@ Section Interp.
     - (* 2-D *)
       cbn [map].
       change (py_len [Z.of_nat r; Z.of_nat c]) with 2%Z.
-      change (py_index [Z.of_nat r; Z.of_nat c] 0) with (Ret (Z.of_nat r)).
-      change (py_index [Z.of_nat r; Z.of_nat c] 1) with (Ret (Z.of_nat c)).
+      (* rows and columns read as A.shape[0] / A.shape[1] or unpacked from A.shape *)
+      try change (py_index [Z.of_nat r; Z.of_nat c] 0) with (Ret (Z.of_nat r)).
+      try change (py_index [Z.of_nat r; Z.of_nat c] 1) with (Ret (Z.of_nat c)).
+      try change (py_unpack2 [Z.of_nat r; Z.of_nat c]) with (Ret (Z.of_nat r, Z.of_nat c)).
       cbn [bind negb Z.eqb Pos.eqb]. rewrite of_nat_eqb. destruct (Nat.eqb r c); cbn [negb]; [|reflexivity].
       unfold dispatch. destruct isd; [reflexivity|].
       destruct cfg; cbn [is_eigen is_newton is_higher run_path hd]; try reflexivity.
